@@ -8,7 +8,9 @@ package logw
 
 import (
 	"fmt"
+	"github.com/tencent/goom/verifsim/rng"
 	"github.com/tencent/goom/verifsim/simenv"
+	"time"
 
 	mocker "github.com/tencent/goom"
 	"github.com/tencent/goom/verifsim/world"
@@ -29,6 +31,9 @@ var subs = []string{"hist", "stub", "iface"}
 
 // Gen delegates to one of the behavioural worlds.
 func (W) Gen(prop string, seed uint64, tier string) *world.Plan {
+	if seed%29 == 11 && !simenv.RaceBuild {
+		return genTimeNow(seed)
+	}
 	si := int(seed % uint64(len(subs)))
 	subProp := "C19"
 	if simenv.RaceBuild {
@@ -67,6 +72,10 @@ var cfgName = []string{"logging off", "OpenDebug", "OpenTrace"}
 
 // Exec runs the plan under every logging configuration and compares.
 func (W) Exec(p *world.Plan, env *world.Env) {
+	if p.Knobs["timenow"] == 1 {
+		execTimeNow(p, env)
+		return
+	}
 	si := p.Knobs["sub"]
 	if si < 0 || si >= len(subs) {
 		env.Res.Verdict = "invalid"
@@ -138,4 +147,133 @@ func firstDiff(a, b []string) string {
 		return fmt.Sprintf("%d lines with logging off, %d with logging on", len(a), len(b))
 	}
 	return ""
+}
+
+// ---- time.Now: the one target goom's debug wrapper treats specially (its own log line needs the
+// time, so the wrapper must not log calls of a mocked time.Now: unbounded recursion otherwise)
+
+func genTimeNow(seed uint64) *world.Plan {
+	r := rng.Derive(seed, 0x71e)
+	p := &world.Plan{Prop: "C19", World: "log", Seed: seed, Knobs: map[string]int{"timenow": 1}}
+	var ops []world.Op
+	stub := false // a default is configured in the current stub epoch (a second bare Return is not generated)
+	for i, n := 0, 4+r.Intn(8); i < n; i++ {
+		switch r.Pick(30, 20, 35, 15) {
+		case 0:
+			ops = append(ops, world.Op{K: "tnapply", V: r.U64()})
+			stub = false
+		case 1:
+			if stub {
+				continue
+			}
+			ops = append(ops, world.Op{K: "tnret", V: r.U64()})
+			stub = true
+		case 2:
+			ops = append(ops, world.Op{K: "tncall"})
+		case 3:
+			ops = append(ops, world.Op{K: "tnreset"})
+			stub = false
+		}
+	}
+	ops = append(ops, world.Op{K: "tncall"})
+	p.Tasks = []world.Task{{Role: "timenow", Ops: ops}}
+	return p
+}
+
+var procStart = time.Now()
+
+func runTimeNow(p *world.Plan, env *world.Env) (lines []string, failure string) {
+	b := mocker.Create()
+	defer b.Reset()
+	mocked, stubEpoch := false, false
+	var fixed time.Time
+	calls := 0
+	for i, op := range p.Tasks[0].Ops {
+		switch op.K {
+		case "tnapply":
+			fixed = time.Unix(1500000000+int64(op.V%100000), 0)
+			f := fixed
+			b.Func(time.Now).Apply(func() time.Time {
+				calls++
+				return f
+			})
+			mocked, stubEpoch = true, false
+		case "tnret":
+			if stubEpoch {
+				return nil, "invalid"
+			}
+			stubEpoch = true
+			fixed = time.Unix(1400000000+int64(op.V%100000), 0)
+			b.Func(time.Now).Return(fixed)
+			mocked = true
+		case "tnreset":
+			b.Reset()
+			mocked, stubEpoch = false, false
+		case "tncall":
+			before := calls
+			got := time.Now()
+			env.Check()
+			if mocked {
+				if !got.Equal(fixed) {
+					return lines, fmt.Sprintf("op#%d: time.Now is mocked to return %v but returned %v", i, fixed.Unix(), got.Unix())
+				}
+				if calls-before > 1 {
+					return lines, fmt.Sprintf("op#%d: the replacement of time.Now ran %d times for one call", i, calls-before)
+				}
+			} else if got.Before(procStart) || got.Equal(fixed) {
+				return lines, fmt.Sprintf("op#%d: time.Now is not mocked but returned %v", i, got.Unix())
+			}
+		default:
+			return lines, "unknown op " + op.K
+		}
+		lines = append(lines, fmt.Sprintf("%s mocked=%v", op.K, mocked))
+		env.Op()
+	}
+	return lines, ""
+}
+
+func execTimeNow(p *world.Plan, env *world.Env) {
+	defer setLogging(0)
+	var base []string
+	for cfg := 0; cfg < 3; cfg++ {
+		setLogging(cfg)
+		var lines []string
+		var failure string
+		pv := func() (pv interface{}) {
+			defer func() { pv = recover() }()
+			lines, failure = runTimeNow(p, env)
+			return nil
+		}()
+		setLogging(0)
+		if pv != nil {
+			failure = fmt.Sprintf("panic: %v", pv)
+		}
+		if failure == "invalid" {
+			env.Res.Verdict = "invalid"
+			return
+		}
+		if failure != "" {
+			env.Res.At = cfgName[cfg]
+			sig := "timenow/behaviour"
+			if cfg > 0 {
+				sig = "log/behaviour-differs:timenow"
+			}
+			env.FailNoUnwind(sig, "mocking time.Now under %s: %s", cfgName[cfg], failure)
+			return
+		}
+		for _, l := range lines {
+			env.T("%s", l)
+		}
+		if cfg == 0 {
+			base = lines
+			continue
+		}
+		if d := firstDiff(base, lines); d != "" {
+			env.Res.At = cfgName[cfg]
+			env.FailNoUnwind("log/transcript-differs", "time.Now scenario under %s: %s", cfgName[cfg], d)
+			return
+		}
+	}
+	env.Res.Nontriv = true
+	env.Probe("time_now_mocked_under_every_logging_configuration")
 }
